@@ -139,19 +139,29 @@ pub async fn run_session_reader(reader: crate::net::BoxRead, max: u64) -> Vec<Re
         sink.get_cell(),
     )
     .await;
-    let mut events = Vec::new();
+    let mut objects = Vec::new();
+    let mut end = Vec::new();
     if spawned.is_err() {
-        events.push(ReaderEvent::Failed("spawn".to_string()));
+        end.push(ReaderEvent::Failed("spawn".to_string()));
     } else {
         while let Some(ev) = rx.recv().await {
-            let done = !matches!(ev, ReaderEvent::Object(_));
-            events.push(ev);
-            if done {
+            if matches!(ev, ReaderEvent::Object(_)) {
+                objects.push(ev);
+            } else {
+                end.push(ev);
                 break;
             }
         }
     }
-    sink.stop(None);
+    // supervision events overtake plain messages: let the stand-in session work off the
+    // objects the reader had already forwarded before it stopped
+    let _ = sink.drain();
     let _ = sink_handle.await;
-    events
+    while let Ok(ev) = rx.try_recv() {
+        if matches!(ev, ReaderEvent::Object(_)) {
+            objects.push(ev);
+        }
+    }
+    objects.extend(end);
+    objects
 }
